@@ -51,6 +51,9 @@ def build(a):
         m = matrix(vals, (a['nrows'], a['ncols']), tc)
         mats[a['name']] = m
         return m
+    if k == 'spmatrix':
+        from cvxopt import spmatrix
+        return spmatrix([], [], [], (a['nrows'], a['ncols']), a['tc'])
     if k in ('int', 'float'): return a['value']
     if k == 'complex': return complex(a['value'][0], a['value'][1])
     if k == 'char': return chr(a['value'])
